@@ -26,8 +26,35 @@
 (* A frame is a tuple of NS*NF integer intensities in row-major order      *)
 (* (pixel p = s*NF + f + 1, s = slow = row, f = fast = column, both        *)
 (* 0-based as in C).  A pixel is in a blob iff intensity > THR.  The k-th  *)
-(* frame (k = 1, 2, ...) has omega = OM0 + (k-1)*OMSTEP, an integer, so    *)
-(* every accumulated sum is an integer.                                    *)
+(* frame (k = 1, 2, ...) has omega = OM0 + (k-1)*OMSTEP (OMSTEP may be 0:  *)
+(* all frames at one angle) or, when OMSEQ is not empty, omega = OMSEQ[k]  *)
+(* (any order, e.g. <<0,2,2,1>>: up, zero step, down); integers, so every  *)
+(* accumulated sum is an integer.  Without PATTERN the intensity of a      *)
+(* pixel is VALS-value + VSHIFT, so that negative pixel values and a       *)
+(* negative THR are in scope (VSHIFT = -2, THR = -2: blobs made of -1, 0,  *)
+(* 1).                                                                     *)
+(*                                                                         *)
+(* MAXFIX selects the rule for the maximum pixel of a blob:                *)
+(*   FALSE  the code as pinned: blobproperties zeroes the row, add_pixel   *)
+(*          replaces the maximum only when I > b[mx_I] - a blob whose      *)
+(*          pixels are all <= 0 (possible only with a negative threshold)  *)
+(*          keeps mx_I = 0 at position (0,0,0): DoneOK / PrefixOK are      *)
+(*          VIOLATED on such scopes (cfg negthr; known finding             *)
+(*          C12-max-pixel-nonpositive-blob); DoneOKAsIs / PrefixOKAsIs     *)
+(*          state the property with the max-pixel clause restricted to     *)
+(*          components whose maximum is > 0 (cfg negthr_asis)              *)
+(*   TRUE   the proposed repair: the first pixel of a blob initialises     *)
+(*          the maximum (cfg negthr_fix: DoneOK / PrefixOK hold)           *)
+(* For intensities > 0 (every other cfg) both rules coincide.              *)
+(*                                                                         *)
+(* NOT MODELLED, bound by the harness on the grounds of covariance (the    *)
+(* model only compares intensities with THR and with each other and adds   *)
+(* products): intensity scale (65535, 2^20, float32-rounded values beyond  *)
+(* 2^24, fractions k/8), sub-threshold negative background, non-dyadic     *)
+(* omega (narrowed to float32 by the f2py wrapper; sums then compared with *)
+(* a rounding-error bound instead of exactly), image shapes up to 2048     *)
+(* wide / tall, the flip and spatial-correction columns, the 2-D .spt      *)
+(* output (rows = state `res` after Peaksearch).                           *)
 (*                                                                         *)
 (* VARIABLES                                                               *)
 (*   frames            history: the frames given to peaksearch so far      *)
@@ -84,6 +111,8 @@
 (*   PrefixOK      at every idle state emitted + open rows = components of *)
 (*                 the frames so far, and lastbl labels each open pixel    *)
 (*                 with the row of its component (the relabel step)        *)
+(*   DoneOKAsIs / PrefixOKAsIs   the same two with the max-pixel clause    *)
+(*                 only for components whose maximum is > 0 (see MAXFIX)   *)
 (*   Conserved     total pixels and total intensity (and I^2) conserved    *)
 (*                 in EVERY state                                          *)
 (*   NoBad         every boundscheck / assert / array index is fine        *)
@@ -98,8 +127,11 @@
 (* BOUNDS (Merge3D_*.cfg)  exhaustive: 2x3 x 2 and 3 frames, 1x5 x 2 and 3 *)
 (* frames, 1x7 x 2 frames (binary masks, intensity 1..3 by position and    *)
 (* frame), 2x2 x 2 frames over 0..3 with threshold 1 and a negative omega  *)
-(* step; simulation (SimSpec): 3x3 and 4x4 x 4 frames over 0..3, threshold *)
-(* 2.  All sums stay far below 2^31.                                       *)
+(* step; 1x3 and 1x2 x 4 frames at omega 0,2,2,1 (cfgs 1x3_f4_om,          *)
+(* 1x2_f4_om); 1x3 and 1x2 x 2 frames over -2..1 with threshold -2 (cfgs   *)
+(* negthr, negthr_asis, negthr_fix and the same with suffix _q);           *)
+(* simulation (SimSpec): 3x3 and 4x4 x 4 frames over 0..3, threshold 2.   *)
+(* All sums stay far below 2^31.                                           *)
 (* TLCEval(...) only forces TLC to evaluate a lazily represented set or    *)
 (* function once (performance); it is the identity.                        *)
 (***************************************************************************)
@@ -110,12 +142,17 @@ CONSTANTS NS, NF,      \* frame shape (slow, fast)
           VALS,        \* pixel alphabet (0 = empty)
           THR,         \* threshold
           PATTERN,     \* TRUE: a non-zero pixel value v at pixel p of frame k has intensity 1+((v+p+k)%3)
-          OM0, OMSTEP, \* omega of frame k is OM0 + (k-1)*OMSTEP
+          OM0, OMSTEP, \* omega of frame k is OM0 + (k-1)*OMSTEP ...
+          OMSEQ,       \* ... unless this sequence is not empty: then omega of frame k is OMSEQ[k]
+          VSHIFT,      \* added to the pixel alphabet when PATTERN = FALSE (negative intensities)
+          MAXFIX,      \* FALSE: max pixel rule of the pinned code; TRUE: first pixel initialises the maximum
           EMITSTEPS    \* TRUE: print every observable state (EmitStep)
 
 ASSUME /\ NS \in Nat \ {0} /\ NF \in Nat \ {0} /\ MAXFR \in Nat \ {0}
-       /\ VALS \subseteq 0..3 /\ THR \in 0..3 /\ OMSTEP # 0
-       /\ PATTERN \in BOOLEAN /\ EMITSTEPS \in BOOLEAN
+       /\ VALS \subseteq 0..3 /\ THR \in Int /\ VSHIFT \in Int /\ OMSTEP \in Int
+       /\ PATTERN \in BOOLEAN /\ EMITSTEPS \in BOOLEAN /\ MAXFIX \in BOOLEAN
+       /\ (PATTERN => VSHIFT = 0 /\ THR >= 0)
+       /\ (OMSEQ # <<>> => Len(OMSEQ) >= MAXFR /\ \A k \in DOMAIN OMSEQ : OMSEQ[k] \in Int)
 
 VARIABLES frames, pc, blim, lastbl, npk, lastnp, res, lastres,
           link, T, i, knpk, out, onfirst, onlast, spot, bad, pend
@@ -127,11 +164,13 @@ vars == <<core, pend>>
 FIRST == -1
 Neg1 == -1      \* (.cfg files cannot write negative numbers: OMSTEP <- Neg2)
 Neg2 == -2
+NoSeq == <<>>               \* OMSEQ <- NoSeq : the linear omega sequence
+SeqUpZeroDown == <<0, 2, 2, 1>>
 NPX == NS * NF
 Pix == 1..NPX
 SOf(p) == (p - 1) \div NF
 FOf(p) == (p - 1) % NF
-Omega(k) == OM0 + (k - 1) * OMSTEP
+Omega(k) == IF OMSEQ = <<>> THEN OM0 + (k - 1) * OMSTEP ELSE OMSEQ[k]
 Abs(x) == IF x < 0 THEN -x ELSE x
 Max2(a, b) == IF a > b THEN a ELSE b
 Min2(a, b) == IF a < b THEN a ELSE b
@@ -149,17 +188,18 @@ ZeroRow == [n |-> 0, I |-> 0, I2 |-> 0, fI |-> 0, ffI |-> 0, sI |-> 0, ssI |-> 0
 InitRow(om) == [ZeroRow EXCEPT !.bnf = NF + 1, !.bns = NS + 1, !.bxf = -1, !.bxs = -1,
                                !.bxo = om, !.bno = om]
 
-\* add_pixel (blobs.c:102-131)
+\* add_pixel (blobs.c:102-131): `if (I > b[mx_I])` on a row that blobproperties zeroed
+NewMax(b, v) == v > b.mxI \/ (MAXFIX /\ b.n = 0)
 AddPixel(b, s, f, v, o) ==
   [n   |-> b.n + 1,        I   |-> b.I + v,          I2  |-> b.I2 + v * v,
    fI  |-> b.fI + f * v,   ffI |-> b.ffI + f * f * v,
    sI  |-> b.sI + s * v,   ssI |-> b.ssI + s * s * v, sfI |-> b.sfI + s * f * v,
    oI  |-> b.oI + o * v,   ooI |-> b.ooI + o * o * v,
    soI |-> b.soI + s * o * v, foI |-> b.foI + f * o * v,
-   mxI |-> IF v > b.mxI THEN v ELSE b.mxI,
-   mxf |-> IF v > b.mxI THEN f ELSE b.mxf,
-   mxs |-> IF v > b.mxI THEN s ELSE b.mxs,
-   mxo |-> IF v > b.mxI THEN o ELSE b.mxo,
+   mxI |-> IF NewMax(b, v) THEN v ELSE b.mxI,
+   mxf |-> IF NewMax(b, v) THEN f ELSE b.mxf,
+   mxs |-> IF NewMax(b, v) THEN s ELSE b.mxs,
+   mxo |-> IF NewMax(b, v) THEN o ELSE b.mxo,
    bxf |-> Max2(f, b.bxf), bxs |-> Max2(s, b.bxs), bxo |-> Max2(o, b.bxo),
    bnf |-> Min2(f, b.bnf), bns |-> Min2(s, b.bns), bno |-> Min2(o, b.bno)]
 
@@ -279,16 +319,21 @@ MaxPosIn(frs, r, C) ==
 \* the table {<<component, its row>>}
 CompTable(frs) == {<<C, CompCore(frs, C)>> : C \in Comps(frs)}
 
-\* rows (a sequence) are in one-to-one correspondence with the components in tab
-Matches(rows, frs, tab) ==
-  LET cset == {pr[2] : pr \in tab}
+\* rows (a sequence) are in one-to-one correspondence with the components in tab.
+\* asis = TRUE restricts the max-pixel clause to components with a positive maximum (for the
+\* others the pinned code reports mx_I = 0 and no position; see MAXFIX above).
+AsIsCore(c, asis) == IF asis /\ c.mxI <= 0 THEN [c EXCEPT !.mxI = 0] ELSE c
+MatchesX(rows, frs, tab, asis) ==
+  LET ctab == {<<pr[1], AsIsCore(pr[2], asis), asis /\ pr[2].mxI <= 0>> : pr \in tab}
+      cset == {pr[2] : pr \in ctab}
       rseq == [j \in DOMAIN rows |-> Core(rows[j])] @@ <<>>    \* (@@ makes TLC evaluate it once)
       rset == {rseq[j] : j \in DOMAIN rows}
   IN /\ Len(rows) = Cardinality(tab)
      /\ rset = cset
      /\ \A c \in cset : Cardinality({j \in DOMAIN rows : rseq[j] = c})
-                        = Cardinality({pr \in tab : pr[2] = c})
-     /\ \A j \in DOMAIN rows : \E pr \in tab : pr[2] = rseq[j] /\ MaxPosIn(frs, rows[j], pr[1])
+                        = Cardinality({pr \in ctab : pr[2] = c})
+     /\ \A j \in DOMAIN rows : \E pr \in ctab : pr[2] = rseq[j] /\ (pr[3] \/ MaxPosIn(frs, rows[j], pr[1]))
+Matches(rows, frs, tab) == MatchesX(rows, frs, tab, FALSE)
 
 -----------------------------------------------------------------------------
 (* helpers for cursors *)
@@ -318,7 +363,7 @@ Init ==
   /\ bad = {}
   /\ pend = <<>>
 
-Intensity(v, p, k) == IF v = 0 THEN 0 ELSE IF PATTERN THEN 1 + ((v + p + k) % 3) ELSE v
+Intensity(v, p, k) == IF PATTERN THEN (IF v = 0 THEN 0 ELSE 1 + ((v + p + k) % 3)) ELSE v + VSHIFT
 
 \* labelimage.peaksearch(data, threshold, omega)
 DoPeaksearch(raw) ==
@@ -617,24 +662,31 @@ KernelPost ==
 
 \* emitted + open rows are the components of the frames seen so far, and lastbl labels every
 \* pixel of the last frame with the row of its component (what the relabel step is for)
-PrefixOK ==
+OmegaFresh(K) == \A k \in 1..(K - 1) : Omega(k) # Omega(K)     \* (fails for a zero step / a revisited angle)
+PrefixOKX(asis) ==
   pc = "idle" /\ Len(frames) >= 1 =>
     LET K   == Len(frames)
         tab == CompTable(frames)
-    IN /\ Matches(OutRows \o lastres, frames, tab)
+    IN /\ MatchesX(OutRows \o lastres, frames, tab, asis)
        /\ \A r \in DOMAIN lastres : /\ lastres[r].n >= 1
-                                     /\ (lastres[r].bxo = Omega(K) \/ lastres[r].bno = Omega(K))
+                                     /\ IF OMSEQ = <<>>      \* monotonic: the newest angle is an end of the range
+                                        THEN lastres[r].bxo = Omega(K) \/ lastres[r].bno = Omega(K)
+                                        ELSE lastres[r].bno <= Omega(K) /\ Omega(K) <= lastres[r].bxo
        /\ \A p \in Pix : (lastbl[p] > 0) = (frames[K][p] > THR)
        /\ \A p \in Pix : lastbl[p] > 0 =>
              /\ lastbl[p] \in DOMAIN lastres
-             /\ \E pr \in tab : <<K, p>> \in pr[1] /\ pr[2] = Core(lastres[lastbl[p]])
-       /\ \A j \in DOMAIN out : out[j].row.bxo # Omega(K) /\ out[j].row.bno # Omega(K)
+             /\ \E pr \in tab : <<K, p>> \in pr[1] /\ AsIsCore(pr[2], asis) = Core(lastres[lastbl[p]])
+       /\ OmegaFresh(K) => \A j \in DOMAIN out : out[j].row.bxo # Omega(K) /\ out[j].row.bno # Omega(K)
+PrefixOK == PrefixOKX(FALSE)
+PrefixOKAsIs == PrefixOKX(TRUE)
 
-DoneOK ==
+DoneOKX(asis) ==
   pc = "done" =>
-    /\ Matches(OutRows, frames, CompTable(frames))
+    /\ MatchesX(OutRows, frames, CompTable(frames), asis)
     /\ \A j \in DOMAIN out : out[j].id = j - 1
     /\ spot = Len(out)
+DoneOK == DoneOKX(FALSE)
+DoneOKAsIs == DoneOKX(TRUE)
 
 -----------------------------------------------------------------------------
 (* emission for the harness: rows flattened in blobs.h column order *)
